@@ -14,7 +14,7 @@ Partial: chains shorter than ~log2(p)/2 (the short table rows, reached only insi
 traversal theorem and the trace correspondence, not end to end; that the theta formulas compute the (2,2)-isogeny
 with the given kernel is not formalised.
 """
-import os, re
+import os, re, sys
 import vlib
 import chain_oracle as co
 from c09 import table_rows, hx, DRV, LV, run_c, correspond
@@ -240,7 +240,26 @@ def rec_skeleton_stage(ctx):
                       dict(op="skel.rec 4 %x" % hi, comparison=" ".join(out)[:500], how="lean driver op; real code: theta.bal traces on the sanitizer build"), found=False)
 
 
+def search_caller(ctx):
+    """concrete failing chain length for the caller theta_chain_comput_balanced (constants re-extracted from the C text)"""
+    sys.path.insert(0, os.path.join(os.path.dirname(os.path.dirname(os.path.abspath(__file__))), "translate"))
+    import balcaller
+    try:
+        r = balcaller.find_failing_n(vlib.REPO)
+    except Exception as e:
+        ctx.log("search: caller extraction failed: %s" % str(e)[:300])
+        return None
+    if r is None:
+        return None
+    n, why = r
+    return ("caller:balanced:n=%d" % n, "theta_chain_comput_balanced leaves its stacks / out->steps for chain length %d: %s" % (n, why),
+            dict(n=n, reason=why, how="python: tools/translate/balcaller.py find_failing_n(repo); real code: tools/harness/drv_chain.c op `theta.bal %x` (sanitizer build)" % n))
+
+
 def search(ctx):
+    r = search_caller(ctx)
+    if r is not None:
+        return r
     ctx.lake(["driver"])
     try:
         for l in (1, 3, 5):
